@@ -81,7 +81,7 @@ func (b *Bytes) Slice(start, end int64) (Blob, error) {
 	}
 	buf := make([]byte, end-start)
 	b.mu.Lock()
-	copy(buf, b.bytes)
+	copy(buf, b.bytes[start:end])
 	b.mu.Unlock()
 	return NewBytes(buf), nil
 }
